@@ -21,7 +21,7 @@ CHECKS = {
             "content carries unique text and binary markers; after quiescence the checker requires exactly one delivery per "
             "intended recipient with identical protobuf content, sender and group identity, none elsewhere, no delivery without "
             "a sent message, the recipient's delivery receipt at the sender, re-acknowledged duplicates, a retry receipt after "
-            "corruption, and no marker in any frame that left a client. 420 runs quick / 25 000 thorough; schedules sampled. A plaintext frame is attributed to the known recipient-without-keys mechanism by what the server double observed (its directory had no keys for the recipient when the sender asked), not by the scenario. Message kinds include replies quoting an earlier message; the leading field of every delivered message (text, caption url, name, quoted text) is read from the entity itself and compared with what the sender wrote, independently of the library's converter.",
+            "corruption, and no marker in any frame that left a client. 420 runs quick / 25 000 thorough; schedules sampled. A plaintext frame is attributed to the known recipient-without-keys mechanism by what the server double observed (its directory had no keys for the recipient when the sender asked), not by the scenario. Message kinds include replies quoting an earlier message; the leading field of every delivered message (text, caption url, name, quoted text) is read from the entity itself and compared with what the sender wrote, independently of the library's converter. In a quarter of the framed runs every send happens in its own application thread while the scheduler keeps delivering to the same client (yield injection in the axolotl layers, manager and stores).",
             "Trusted: the server double (our reading of the server's routing), python-axolotl (padding shim). Framed wiring without noise/segments (C04/C11 cover those).",
             "DESIGN.md 4/C03"),
     "C01": ("exploration",
@@ -30,7 +30,7 @@ CHECKS = {
             "length 1..255 incl. JID users, '@' placements, content sizes around 2^8/2^16/2^20 alone, followed by a sibling "
             "and nested two levels down, list sizes around 128/256, every byte value) plus 3 000 (quick) / 160 000 (thorough, "
             "incl. two ~16 MiB nodes) random trees are round-tripped through the real encoder and decoder and compared by an "
-            "independent strict comparator. Sampled above the sweep; no finite run covers all trees.",
+            "independent strict comparator. Sampled above the sweep; no finite run covers all trees. Every seventh decoded tree is annotated afterwards (attributes set, a child added): later cases, compared with plain data, expose any state shared between node objects.",
             "Trusted: the comparator and generators. Inputs well-formed per the quantifier.",
             "DESIGN.md 4/C01"),
     "C02": ("exploration",
@@ -40,7 +40,7 @@ CHECKS = {
             "of list-header/length-width/token-vs-literal/packed/JID/string-content/deflate choices for trees with few sites, "
             "random vectors otherwise) and the library decoder must return the tree. The 1260 dictionary entries are compared "
             "index by index with a frozen copy. The reference codec is self-checked on every vector and anchored on the byte "
-            "strings pinned in the repository's coder tests; if that fails the run is inconclusive.",
+            "strings pinned in the repository's coder tests; if that fails the run is inconclusive. One coder layer is driven through histories of sends in which some stanzas are refused by the encoder: every frame on the wire must be a valid encoding of exactly its stanza.",
             "Trusted: vf/refcodec.py (our reading of the format), data/tokens.json (frozen copy, independent in time only).",
             "DESIGN.md 4/C02"),
     "C05": ("exploration",
@@ -48,7 +48,7 @@ CHECKS = {
             "Every partition of every short frame list (all 2^(L-1) chunkings, L up to 15 quick / 19 thorough, two content "
             "modes incl. header-looking payloads) plus random streams up to 16 MiB frames are pushed through the real "
             "YowNoiseSegmentsLayer; a probe above must see exactly the sent frames, a probe below exactly len3+payload. "
-            "Exhaustive for short streams, sampled above; that is as much as executions can give for an unbounded input space. Reconnect cases: a stream is cut at a random byte, the 'disconnected' announcement is emitted the way the network layer does (detached, from the layer directly below) and the next stream follows before the stack's loop turns; exactly the complete frames before the cut and all later frames must come out. Real dispatchers: the loopback server writes frames around and above 64 KiB and bursts of thousands of small ones; the bytes handed to the framing layer must equal the bytes written and the connection must stay up.",
+            "Exhaustive for short streams, sampled above; that is as much as executions can give for an unbounded input space. Reconnect cases: a stream is cut at a random byte, the 'disconnected' announcement is emitted the way the network layer does (detached, from the layer directly below) and the next stream follows before the stack's loop turns; exactly the complete frames before the cut and all later frames must come out. Real dispatchers: the loopback server writes frames around and above 64 KiB and bursts of thousands of small ones; the bytes handed to the framing layer must equal the bytes written and the connection must stay up. Real dispatchers also: local disconnect while a frame is half received (the rest arrives before the peer closes), then a new login on the same stack.",
             "Trusted: the probe layers and the list comparison. Frames are non-empty. Single-threaded delivery (one network thread).",
             "DESIGN.md 4/C05"),
     "C15": ("exploration",
@@ -64,7 +64,7 @@ CHECKS = {
             "Tokens for digit strings of every length 1..20 and generated unicode phone strings are compared with an independent "
             "HMAC-SHA1; every single byte / Latin-1 char / a spread of code points and generated str/bytes/int values must "
             "percent-decode to the original; generated parameter lists and the three real request classes (preview mode, "
-            "sendRequest intercepted, harness recipient key) must decrypt to the encoded parameters in order under distinct ephemeral keys. Tokens for different numbers are also computed concurrently by 2-4 threads on the process-wide environment object with yield injection inside yowsup/env. Every request object is sent a second time and a third time after addParam: fresh ephemeral key, current parameters. A second environment class with other constants is registered: each environment's tokens are the keyed hash with its own constants, whatever was asked of the other before.",
+            "sendRequest intercepted, harness recipient key) must decrypt to the encoded parameters in order under distinct ephemeral keys. Tokens for different numbers are also computed concurrently by 2-4 threads on the process-wide environment object with yield injection inside yowsup/env. Every request object is sent a second time and a third time after addParam: fresh ephemeral key, current parameters. A second environment class with other constants is registered: each environment's tokens are the keyed hash with its own constants, whatever was asked of the other before. Every fourth request object reuses the previous full number under another country-code split.",
             "Trusted: frozen copies of the three token constants, hmac/urllib/cryptography. Input space sampled.",
             "DESIGN.md 4/C20"),
     "C18": ("exploration",
@@ -74,7 +74,7 @@ CHECKS = {
             "emitter x consumer x emit/broadcast x normal/detached event (exactly once, in order, nothing after the consumer, "
             "deferred part only after the library's own loop body ran), interface lookup by class; all 16 getProtocolLayers/"
             "getDefaultLayers combos, positional forms, all 32x2 getDefaultStack combos, pushDefaultLayers. Exhaustive for the "
-            "small shapes and the flag space, sampled above. Every stack built by the default helpers is kept and its wiring (neighbour links, stack membership of every layer and sublayer) is verified again after later stacks were built; a builder with a pushed, popped and pushed layer is included. The library's own pass-through layer (logger) is placed as plain layer and as member of parallel groups of every size/position in explicit, implicit and builder compositions: data must reach every layer once.",
+            "small shapes and the flag space, sampled above. Every stack built by the default helpers is kept and its wiring (neighbour links, stack membership of every layer and sublayer) is verified again after later stacks were built; a builder with a pushed, popped and pushed layer is included. The library's own pass-through layer (logger) is placed as plain layer and as member of parallel groups of every size/position in explicit, implicit and builder compositions: data must reach every layer once. Four stacks carry a subclass of the library's interface layer on top: each finds the network/auth interfaces of its own stack, in any asking order.",
             "Trusted: the reference interpreter (our reading of the statement). Siblings inside the emitter's/consumer's own group: only 'at most once'.",
             "DESIGN.md 4/C18"),
     "C19": ("fault_enumeration",
@@ -95,7 +95,7 @@ CHECKS = {
             "before/after each DML statement, before/after each commit, every Python line in store/sqlite/*.py - is a crash point: "
             "a forked child is killed there, the parent reopens the file and requires every record to be its old or its new "
             "value, never missing; plus two-party conversations continued across restarts of either side. Crash points are "
-            "complete per operation instance; states and sequences are sampled. Manager level: level_prekeys / generate_signed_prekey / set_prekeys_as_sent through AxolotlManager with batch sizes 1..205; after every returned call the database files are copied as a kill would leave them and the copy must show what the live store shows.",
+            "complete per operation instance; states and sequences are sampled. Manager level: level_prekeys / generate_signed_prekey / set_prekeys_as_sent through AxolotlManager with batch sizes 1..205; after every returned call the database files are copied as a kill would leave them and the copy must show what the live store shows. Crash children first replay a state-preserving tail of the history (and sometimes an upload confirmation) on their own connection before the judged operation.",
             "Trusted: SQLite's atomic commit, the filesystem, python-axolotl (with the block-aligned padding shim). Process death only.",
             "DESIGN.md 4/C13"),
     "C10": ("exploration",
@@ -133,7 +133,7 @@ CHECKS = {
             "asyncore dispatchers over loopback TCP against a server thread (Noise responder per connection), with statement-"
             "level yield injection inside the dispatchers and asyncore: the bytes read from the peer's socket must equal, byte "
             "for byte, what the stack handed to the network layer (this also judges the handshake thread's writes against the "
-            "asyncore loop's), every frame must decrypt in counter order and every stanza id arrive exactly once. A quarter of the probe-level runs start their senders during the handshake (a refusal reported to the sender is fine; whatever is accepted must arrive once, in counter order). Stalled-write runs: one sender is held between a frame's length header and its payload for 6.5 s while the keep-alive comes due (fast clock); the ping must wait its turn and the stream stay whole.",
+            "asyncore loop's), every frame must decrypt in counter order and every stanza id arrive exactly once. A quarter of the probe-level runs start their senders during the handshake (a refusal reported to the sender is fine; whatever is accepted must arrive once, in counter order). Stalled-write runs: one sender is held between a frame's length header and its payload for 6.5 s while the keep-alive comes due (fast clock); the ping must wait its turn and the stream stay whole. In 40% of the runs the server double floods the client with frames while its threads send (all must come up in order).",
             "Trusted: dissononce cipher states of the peer. In the probe-level runs senders start after the handshake (C04 covers the handshake thread's writes there).",
             "DESIGN.md 4/C11"),
     "C14": ("exploration",
@@ -144,7 +144,7 @@ CHECKS = {
             "every event the model is compared with load_unsent_prekeys, the stored keys and the uploads seen by the server: "
             "pending == stored minus confirmed, confirmed keys never re-offered, every offered (id, key) is in the store until a "
             "delivered first message consumed it and gone afterwards, a replay delivers nothing, identity/registration id match "
-            "the account and the signed prekey verifies under the identity (Curve.verifySignature). Overlapping uploads: the server asks again while earlier uploads are unanswered; results arrive in order, reversed, or the last one is lost. While an upload is unanswered the application issues pings that the server answers (their ids driven past the upload's id): the upload stays unconfirmed.",
+            "the account and the signed prekey verifies under the identity (Curve.verifySignature). Overlapping uploads: the server asks again while earlier uploads are unanswered; results arrive in order, reversed, or the last one is lost. While an upload is unanswered the application issues pings that the server answers (their ids driven past the upload's id): the upload stays unconfirmed. Signed prekey ids are tracked like one-time keys (an id names one key for ever, the server-held one must be in the store); a quarter of the histories start with an unconfirmed first upload followed by a kill; the world's restart rolls back and closes the old connection.",
             "Trusted: the server double (stores keys on processing the request), python-axolotl. Histories sampled.",
             "DESIGN.md 4/C14"),
     "C17": ("exploration",
@@ -184,7 +184,7 @@ CHECKS = {
             "dispatchers over loopback TCP (peer close, local disconnect, refused connect, stream error with automatic "
             "reconnect, re-login after the network thread ended, immediate re-login from another thread while the first "
             "connect() has not returned, login failure), with yield injection inside the dispatchers; judged on announcement "
-            "counts, network-thread termination, no spurious close, resumed (IK) handshake, exceptions in network threads. Real dispatchers: ECONNRESET is injected into the next socket write of the socket and asyncore dispatchers over loopback; the failing send and a later send from another thread must return, no lock may stay held (layer locks and the dispatcher's), the connection is announced down once and a reconnect logs in and carries a stanza. Further events: the connection going down at line event k of the keep-alive thread's step (random k in histories; k=1..20 as scripted sweeps followed by a relogin with every ping answered), a partial further frame behind a connection-ending stanza, a connect request before the stack's loop has delivered the previous 'disconnected' announcement (judged), the new connection even coming up before that (known finding reconnect-up-before-loop-turn), and for asyncore a disconnect() placed between the loop's descriptor collection and its select(). Upward failure under the real dispatchers: a layer raises on an incoming frame, the application reconnects from another thread once the announcement has reached it while the old network thread is held at its next line; the new connection must log in, stay up, be announced down zero times and carry a stanza. A pong may arrive while the keep-alive thread is still inside the send of its ping (event tick-pong-race and scripted histories), after which answered pings must never time out.",
+            "counts, network-thread termination, no spurious close, resumed (IK) handshake, exceptions in network threads. Real dispatchers: ECONNRESET is injected into the next socket write of the socket and asyncore dispatchers over loopback; the failing send and a later send from another thread must return, no lock may stay held (layer locks and the dispatcher's), the connection is announced down once and a reconnect logs in and carries a stanza. Further events: the connection going down at line event k of the keep-alive thread's step (random k in histories; k=1..20 as scripted sweeps followed by a relogin with every ping answered), a partial further frame behind a connection-ending stanza, a connect request before the stack's loop has delivered the previous 'disconnected' announcement (judged), the new connection even coming up before that (known finding reconnect-up-before-loop-turn), and for asyncore a disconnect() placed between the loop's descriptor collection and its select(). Upward failure under the real dispatchers: a layer raises on an incoming frame, the application reconnects from another thread once the announcement has reached it while the old network thread is held at its next line; the new connection must log in, stay up, be announced down zero times and carry a stanza. A pong may arrive while the keep-alive thread is still inside the send of its ping (event tick-pong-race and scripted histories), after which answered pings must never time out. After every non-critical failure two threads send at once (the thread that saw the failure inside a long send, a second one joining), with yield injection; the strict peer must still decrypt everything exactly once. Real scenario first-login-reboot: passive login, key upload confirmed by the server thread, the library's own close and non-passive reconnect, with the network thread held at its next line in the control layer until the loop thread has worked off the announcement.",
             "Trusted: the reference machine (our reading of the statement), scripted dispatcher, loopback server thread. First login (key upload, reconnect) precedes the judged history.",
             "DESIGN.md 4/C16"),
     "C09": ("exploration",
@@ -194,7 +194,7 @@ CHECKS = {
             "without a fixture are converted to their entity and back (300 draws per class quick, 6 000 thorough) and compared "
             "with a strict comparator (numbers by value; protobuf payloads field-wise). 34 application/library-sendable entity "
             "constructors with generated arguments plus generated message entities are serialised and pushed through the "
-            "library encoder, the library decoder and the independent reference decoder. Optional fields: for every receive-side class (a layer or a receive-side entity parses with it) each field is unset / an unset field is set, and when the class's own serialiser answers with pure deletions/additions that stanza must make the same round trip (an absent attribute written back as its default is accepted). Key results mix complete and incomplete users in every order: complete users unchanged, incomplete ones (and only those) reported as errors.",
+            "library encoder, the library decoder and the independent reference decoder. Optional fields: for every receive-side class (a layer or a receive-side entity parses with it) each field is unset / an unset field is set, and when the class's own serialiser answers with pure deletions/additions that stanza must make the same round trip (an absent attribute written back as its default is accepted). Key results mix complete and incomplete users in every order: complete users unchanged, incomplete ones (and only those) reported as errors. Aliasing probe: every text/bytes field of a converted entity is edited, then the same stanza is converted again and must come out unchanged.",
             "Trusted: vf/catalogue.py (our transcription of the documented shapes), vf/refcodec.py. Enumeration-valued attributes keep the documented literal.",
             "DESIGN.md 4/C09"),
     "C06": ("exploration",
@@ -227,7 +227,7 @@ CHECKS = {
             "with and without the axolotl layers. Exactly the predicted callback must fire, once, with the original request "
             "object and the matching reply; anything else must fire nothing. Library-internal requests (key fetch incl. "
             "error/unknown/duplicate replies, key upload) are judged by their effect (message sent once / keys marked sent). "
-            "Four seeded mutants (shared registry, both callbacks, entry not removed, original not attached) are caught. The send layer's internal chain for a first group message (group info, then one key request for all members without session) runs with key results that leave members out and with replayed results: the message leaves exactly once, the sender key goes to exactly the keyed members, replays trigger nothing.",
+            "Four seeded mutants (shared registry, both callbacks, entry not removed, original not attached) are caught. The send layer's internal chain for a first group message (group info, then one key request for all members without session) runs with key results that leave members out and with replayed results: the message leaves exactly once, the sender key goes to exactly the keyed members, replays trigger nothing. Concurrent runs: 2-4 application threads and a keep-alive-like sender issue requests while a receive thread answers them, with yield injection in the registry code; every callback / reply entity exactly once.",
             "Trusted: the reference registry and the documented reply shapes of vf/catalogue.py. Histories sampled.",
             "DESIGN.md 4/C08"),
 }
